@@ -3,7 +3,9 @@
 #include "verif.h"
 #include <string.h>
 #include "http_server.c"
+#ifndef UMAX
 #define UMAX 10
+#endif
 void harness_url_match(void)
 {
 	static const char target[] = "/api/jet/";          /* 9 bytes */
